@@ -42,6 +42,8 @@ def run_check(prop: str, tier: str, root: str, overlay=None, quiet=False, write=
         err = "crash: " + "".join(traceback.format_exception_only(type(e), e)).strip()
         if os.environ.get("SA_DEBUG"):
             traceback.print_exc()
+    if err is None and ctx.floor_failures:
+        err = "AnalysisError: " + "; ".join(ctx.floor_failures[:3])
     apply_known(ctx.obligations, load_known())
     if not write:
         viol = any(o.status == "violated" and not o.finding for o in ctx.obligations)
